@@ -710,18 +710,14 @@ func judge(run *vlib.Run, pl *plan, wlFile, dir, mode, point string, crashOp int
 		return
 	}
 	// 1. reopened tip must be one the node had validated (a tip of the reference up to the crash op)
-	// (a block the node had validated and connected = a tip of the reference up to the crash op, or
-	// an ancestor of one: blocks connected in the middle of a reorganisation never were "the" tip)
+	// "a tip that the node had validated": a block that had been delivered to the node before the crash and
+	// whose whole chain is valid (step 2 recomputes that by replay). It need not have been *the* tip before:
+	// among branches of equal work the choice after a restart is not determined (the block index is rebuilt
+	// in map order), and a stored side-branch block is validated and connected during recovery.
 	okTip := rr.Opened.Tip == pl.w.Params.GenesisHash.String()
-	for i := 0; i <= crashOp && i < len(pl.tipAfter) && !okTip; i++ {
-		if i > 0 && pl.tipAfter[i] == pl.tipAfter[i-1] {
-			continue
-		}
-		for n := pl.ref.Nodes[pl.tipAfter[i]]; n != nil; n = n.Parent {
-			if n.Hash.String() == rr.Opened.Tip {
-				okTip = true
-				break
-			}
+	for i := 0; i <= crashOp && i < len(pl.w.Ops) && !okTip; i++ {
+		if pl.w.Ops[i].Kind == "block" && pl.w.Ops[i].Hash == rr.Opened.Tip {
+			okTip = true
 		}
 	}
 	if exact {
@@ -730,7 +726,7 @@ func judge(run *vlib.Run, pl *plan, wlFile, dir, mode, point string, crashOp int
 	wit["opened_tip"] = rr.Opened.Tip
 	wit["opened_height"] = rr.Opened.Height
 	if !okTip {
-		run.Violation("tip-not-validated/"+mode+"/"+pname, "after reopen the tip is not a block the node had validated and connected before", wit)
+		run.Violation("tip-not-validated/"+mode+"/"+pname, "after reopen the tip is a block that had not been delivered to the node before the crash", wit)
 		return
 	}
 	// 2. UTXO == replay of that tip
